@@ -198,7 +198,7 @@ PUBLIC_NAMES = ["pub", "child", "kids", "meth", "label"]
 #: Jinja protocols; fetches of these are not attributed to the template
 PROTOCOL_NAMES = frozenset([
     "__class__", "__html__", "__call__", "__aiter__", "__anext__", "__await__", "__iter__",
-    "__next__", "__len__", "__name__", "__self__", "__wrapped__", "__getitem__",
+    "__next__", "__len__", "__getitem__",
     "__contains__", "__bool__", "__str__", "__format__", "__hash__", "__eq__",
     "jinja_pass_arg", "unsafe_callable", "alters_data", "jinja_async_variant",
 ])
